@@ -319,7 +319,8 @@ class GeoBoxBase:
             roi = numpy.s_[ty : ty + ny, tx : tx + nx]
 
         if isinstance(roi, int):
-            roi = (slice(roi, roi + 1), slice(None, None))
+            # int is normalised to a one row slice further down (handles -1)
+            roi = (roi, slice(None, None))
 
         if isinstance(roi, slice):
             roi = (roi, slice(None, None))
